@@ -117,6 +117,10 @@ def record_scale_trace(spec):
     elif kind == "trend":
         x = rng.standard_normal(N) + 3.0 + 0.01 * t
         y = np.roll(x, 3) + 0.3 * rng.standard_normal(N) - 1e-5 * t * t
+    elif kind == "line":  # coherent line at the analysis frequency far above a tiny noise floor: large mean, tiny scatter
+        om0 = spec["omega"]
+        x = np.cos(om0 * t + 0.3) + 1e-7 * rng.standard_normal(N)
+        y = 0.5 * np.cos(om0 * t - 1.1) + 1e-7 * rng.standard_normal(N)
     else:  # sine + noise
         x = np.sin(0.37 * t + 1.0) + 0.1 * rng.standard_normal(N)
         y = 0.7 * np.sin(0.37 * t + 0.2) + 0.1 * rng.standard_normal(N)
@@ -155,8 +159,11 @@ def record_scale_trace(spec):
         from speckit import core_cuda
         runs.append(("cuda", tuple(float(v) for v in getattr(core_cuda, name + "_cuda")(*args))))
     ev = []
+    # the scatter relative to the definition's own scatter, where the two-pass reduction is well conditioned
+    m2d = ref[4]
+    relok = K >= 2 and m2d > 0 and math.sqrt(m2d) >= 1e-9 * s
     for b, g in runs:
-        ev.append({"b": b, "mode": mode, "K": K,
+        ev.append({"b": b, "mode": mode, "K": K, "m2r": (traces.q(g[4] / m2d) if relok else -1),
                    "q": [traces.q(g[0] / s), traces.q(g[1] / s), traces.q(g[2] / s), traces.q(g[3] / s),
                          traces.q(g[4] / (s * s))]})
     return {"meta": dict(spec), "c": {"budget": budget}, "ev": ev}
@@ -176,7 +183,7 @@ def scale_specs(tier, seed):
         om = rnd.choice([math.pi * frac, math.pi * frac, 2 * math.pi * rnd.randint(0, L // 2) / L, math.pi * frac * 0.01,
                          rnd.choice([0.0, math.pi, math.pi * (1 - 0.01 * frac)])])
         specs.append(dict(seed=rnd.randrange(2 ** 31), N=N, L=L, K=K, order=rnd.choice([-1, 0, 1, 2]),
-                          mode=rnd.choice(["auto", "csd"]), data=rnd.choice(["white", "trend", "sine"]),
+                          mode=rnd.choice(["auto", "csd"]), data=rnd.choice(["white", "trend", "sine", "line"]),
                           win=rnd.choice(wins if L >= 8 else ["rect", "hann", "kaiser"]), omega=om,
                           cuda=(i % (8 if tier == "quick" else 6) == 0)))
     return specs
